@@ -225,6 +225,11 @@ def counting_loads(s):
     return json.loads(s)
 
 
+def bytes_dumps(obj):
+    import json
+    return json.dumps(obj, ensure_ascii=False).encode('utf-8')
+
+
 class CountingJSON(JSONHandler):
     def deserialize(self, stream, content_type, content_length):
         CNT.parses += 1
@@ -352,6 +357,14 @@ def get_app(stack, flavour, sym):
         if flavour == 'stock':
             hs[falcon.MEDIA_JSON] = JSONHandler(loads=counting_loads)
             hs[vt] = JSONHandler(loads=counting_loads)
+        elif flavour == 'bytes':
+            # a dumps() that returns bytes (orjson style; documented as supported), exact handler type
+            hs[falcon.MEDIA_JSON] = JSONHandler(dumps=bytes_dumps, loads=counting_loads)
+            hs[vt] = JSONHandler(dumps=bytes_dumps, loads=counting_loads)
+        elif flavour == 'wbytes':
+            # ... and on a subclass (no fast path: serialize / serialize_async are called)
+            hs[falcon.MEDIA_JSON] = CountingJSON(dumps=bytes_dumps)
+            hs[vt] = CountingJSON(dumps=bytes_dumps)
         else:
             hs[falcon.MEDIA_JSON] = CountingJSON()
             hs[vt] = CountingJSON()
@@ -546,8 +559,10 @@ def case_R(case, rep):
     for ct in cts:
         is_form = ct == FORM
         bodies = {}
-        for stack in ('wsgi', 'asgi'):
-            flavour = 'stock'
+        for stack, flavour in (('wsgi', 'stock'), ('asgi', 'stock'), ('wsgi', 'wrapped'), ('asgi', 'wrapped'),
+                               ('wsgi', 'bytes'), ('asgi', 'bytes'), ('wsgi', 'wbytes'), ('asgi', 'wbytes')):
+            if is_form and flavour in ('bytes', 'wbytes'):
+                continue
             try:
                 res = emit(stack, flavour, sym, ct, doc)
             except watchdog.Hang:
@@ -558,8 +573,8 @@ def case_R(case, rep):
             if res is None or res.exc is not None or res.problems or res.code != 200:
                 rep.violation({'kind': 'serialize-failed', 'stack': stack, 'ct': ct_class(ct),
                                'body': '', 'exc': type(res.exc).__name__ if res is not None and res.exc else ''}, rec,
-                              'resp.media = %r with Content-Type %r on %s: expected 200 and a body; got %r exc %r problems %r'
-                              % (doc, ct, stack, getattr(res, 'code', None), getattr(res, 'exc', None),
+                              'resp.media = %r with Content-Type %r on %s (handlers=%s): expected 200 and a body; got %r exc %r problems %r'
+                              % (doc, ct, stack, flavour, getattr(res, 'code', None), getattr(res, 'exc', None),
                                  getattr(res, 'problems', None)))
                 continue
             body = res.body
@@ -573,9 +588,10 @@ def case_R(case, rep):
                 rep.violation({'kind': 'wire-format', 'stack': stack, 'ct': ct_class(ct), 'body': '', 'exc': ''}, rec,
                               'resp.media = %r as %r on %s rendered %r, which the independent decoder reads as %r'
                               % (doc, ct, stack, body, wire))
-            bodies[stack] = body
+            if flavour == 'stock' or body != bodies.get(stack):
+                bodies[stack if flavour == 'stock' else stack + '/' + flavour] = body
         for es, body in sorted(bodies.items()):
-            if es == 'asgi' and bodies.get('wsgi') == body:
+            if es != 'wsgi' and bodies.get('wsgi') == body:
                 continue    # same bytes: already sent back below
             for ps in ('wsgi', 'asgi'):
                 for flavour in ('stock', 'wrapped'):
@@ -862,7 +878,7 @@ def check(rep):
                 'histories with >= 2 calls, response histories with a render before the last assignment')
     rep.assumptions = [
         'resp.media = None means "no media" (documented); top-level null is checked at handler level',
-        'special floats are excluded by the property; custom dumps/loads are not generated (a counting loads wraps json.loads)',
+        'special floats are excluded by the property; custom loads: a counting wrapper of json.loads; custom dumps: json.dumps returning bytes',
         'form mappings: str -> str, or str -> list of >= 2 str (a one-element list is documented to come back as a str)',
         'lenient readings of structurally broken form bodies are not pinned here (C08); they must be a dict or MediaMalformedError',
         'ASGI requests are sent both with Content-Length and without it (chunked transfer coding)',
